@@ -287,6 +287,27 @@ Example C07_inv_satisfiable : forall (Cc Hc Sc : Type) (d0 : Cc) h k p sc hv add
   inv Cc Hc Sc d0 (h, fresh Cc Hc Sc d0 h k p sc hv addr :: nil).
 Proof. exact inv_fresh1. Qed.
 
+(* The constructor.  Chemical(ID, ..., Hvap=<user model>, default=<bool>, method=<name>) (no phase=), for ANY arguments and
+   any effect of set_method / default() on the handles and data: the chemical it returns HAS H / S functors, and they are the
+   generated wiring of the inputs the chemical has WHEN THE CONSTRUCTOR RETURNS (its state satisfies the invariant of
+   C07_wiring_follows_own_inputs, so every later history keeps it).  With C07_jump_vap this is the clause "the jump at the
+   normal boiling point equals the heat of vaporisation" for chemicals built with method=: the Hvap(Tb) inside the
+   functors is the value of the model the chemical answers with.  Rests on the ORDER of the constructor's statements,
+   generated from Chemical.__new__ (Gen_Rewire.ctor_tail: reset_free_energies is the last one; what seeded change C07-13 broke).
+   No axioms. *)
+Theorem C07_constructor_wires_final_inputs :
+  forall (Cc Hc Sc : Type) (d0 : Cc) (a : ctor_args Cc Hc Sc) h k p sc hv addr, (addr < length h)%nat ->
+  exists c, snd (construct Cc Hc Sc d0 a h k p sc hv addr) = Some c /\
+            inv Cc Hc Sc d0 (fst (construct Cc Hc Sc d0 a h k p sc hv addr), c :: nil).
+Proof. exact construct_wired. Qed.
+Print Assumptions C07_constructor_wires_final_inputs.
+
+(* non-vacuity / the case the seeded change needs: method= switches the Hvap model (1 -> 2); the functors hold 2 *)
+Example C07_constructor_method_reaches_functors :
+  let r := construct nat nat unit 0%nat (mkCtor nat nat unit None None (Some ((fun _ => 2%nat), (fun x => x)))) (7%nat :: nil) CnHandle Pl tt 1%nat 0%nat in
+  option_map (fun c => (c_hv _ _ _ c, i_hv _ _ _ (w_in _ _ _ c))) (snd r) = Some (2%nat, 2%nat).
+Proof. reflexivity. Qed.
+
 (* ---------------- phase labels ---------------- *)
 
 (* For each of the five phase labels ('s' 'l' 'g' and the second solid / liquid phases 'S' 'L') the heat-capacity handle
